@@ -4,6 +4,33 @@ _SUFFIX = (' Decides the structural necessary condition(s) named, on every path 
            'current source; does not decide the run-time behaviour itself.')
 
 CLAIMED = {
+    'C07': {
+        'text': 'R07.1 conflict flag of the inline-source decision is def-use derived from the text-merge status in an accepted '
+                'non-zero form and source is replaced by exactly the rendered text; R07.2 every renderer return that contains '
+                'markers carries a non-zero literal status, status-0 returns hand back an input unchanged, external status is '
+                'passed through unmodified; R07.3 every constant that flows into source lines / marker cells evaluates to '
+                'marker-shaped text; R07.4 (evaluator) delete-vs-edit with a non-transient edit never reaches a deletion-'
+                'picking arm under the default strategy.' + _SUFFIX,
+        'note': 'Line survival/provenance through patch() and the output of git merge-file/diff3 are run-time text: not decided.',
+        'technique': 'static analysis: def-use of status/flag, constant folding of fabricated text, partial evaluation of the delete-vs-edit chain',
+    },
+    'C10': {
+        'text': 'R10.1 sibling table agreement: for use-base/use-local/use-remote each of 7 mapping sites (tryresolve, generic '
+                'resolver, list arm, three renderers, merge_render; git --ours/--theirs tied to the file order of the command '
+                'and to which text each temp file holds) selects the entity of that side (partial evaluation per strategy); '
+                'R10.2 generic resolution clears the flag it resolves under the open-conflict guard; R10.3 root strategy is '
+                'applied on every path of decide_merge_with_diff and use-* becomes root and per-field default.' + _SUFFIX,
+        'note': 'The equivalence of the two resolution paths over all triples is behavioural and not decided.',
+        'technique': 'static analysis: cross-sibling mapping-table comparison by partial evaluation + CFG must-pass-through',
+    },
+    'C11': {
+        'text': 'By-construction clauses R11.1-R11.4: every differ returns a builder result / [] / another differ\'s result '
+                '(dataflow over returns), sorted insertion and tie-break operators of the sequence builder, duplicate refusal '
+                'of the mapping builder; op_patch reached only through builder.patch under `if diff`; recursion only under '
+                'not-is_atomic (+ same type); builder op sets equal the schema oneOf; output differ cannot target data twice.' + _SUFFIX,
+        'note': 'Bounds / non-overlap / key existence relative to a concrete base are value-level: not decided.',
+        'technique': 'static analysis: return-value dataflow + guard dominance + schema/table comparison',
+    },
     'C03': {
         'text': 'Proof by exhaustion over finite dispatch tables (R03.1-R03.6): a three-valued partial evaluator walks the '
                 'chunk-type switch of _merge_lists for all 36 (local,remote) chunk types and the op table of _merge_dicts for '
